@@ -32,7 +32,7 @@ LEVEL_NOTE = ('Exhaustive over relative placements on the small lattice only; la
 RULE = ("lattice: cases = (filter node subset, storage order), executions = response assignments x SED grids; irregular/object/package: one case per configuration; "
         "non-trivial = distinct (filter, SED grid) pairs whose overlap is non-empty and whose filter has a non-zero response")
 ASSUMPTIONS = ["non-negative responses, strictly positive distinct frequencies", "lattice exhaustive; beyond it a finite seed-derived family"]
-REQUIRED_CLASSES = ['spectrum-resolving-a-narrow-filter', 'rebinned-before-normalising', 'package-of-100-models-and-100-wavelengths', 'integer-response', 'filter-file-overwritten-and-read-again', 'bin-edge-on-filter-end', 'several-nodes-in-one-bin', 'filter-decreasing-nu', 'sed-decreasing-nu', 'partial-overlap-low', 'partial-overlap-high',
+REQUIRED_CLASSES = ['same-filter-binned-again-on-a-grid-of-equal-length', 'spectrum-resolving-a-narrow-filter', 'rebinned-before-normalising', 'package-of-100-models-and-100-wavelengths', 'integer-response', 'filter-file-overwritten-and-read-again', 'bin-edge-on-filter-end', 'several-nodes-in-one-bin', 'filter-decreasing-nu', 'sed-decreasing-nu', 'partial-overlap-low', 'partial-overlap-high',
                     'filter-outside-sed', 'empty-bin', 'normalized-flat', 'linearity', 'file-filter', 'pkg-v1', 'pkg-v2', 'pkg-errors', 'irregular', 'seds-with-different-grids', 'filter-nu-in-other-unit', 'two-filters-one-response-array']
 TIMEOUT = {'quick': 600, 'thorough': 3000}
 
@@ -161,6 +161,7 @@ def _lattice(ctx, case, rec):
         # values are multiples of 1/16, so float arithmetic on them is exact
         G = {h: float(convref.pl_integral(sfx, sfy, sfx[0], min(max(h, sfx[0]), sfx[-1]))) for h in half}
         tot = G[half[-1]]
+        held = None
         for g, gq in zip(grids, grid_q):
             try:
                 r = f.rebin(gq).response
@@ -170,6 +171,13 @@ def _lattice(ctx, case, rec):
                 continue
             rec.ev()
             rec.trans()
+            # the binned response handed out for the previous grid is a result like any other: binning the same filter again leaves it as it was
+            if held is not None and not np.array_equal(np.asarray(held[0]), held[1]):
+                rec.violation('rebin|earlier-result-changed', {'resp': list(resp), 'sed': held[2]},
+                              {'filter_nu': nodes, 'response': list(resp), 'first_sed_nu': held[2], 'then_sed_nu': g, 'first_result_was': held[1], 'first_result_now': np.asarray(held[0])})
+            if held is not None and len(held[2]) == len(g):
+                rec.cls('same-filter-binned-again-on-a-grid-of-equal-length')
+            held = (r, np.array(r, dtype=float, copy=True), g)
             n = len(g)
             R = []
             for i in range(n):
